@@ -35,8 +35,8 @@ func TestMC(t *testing.T) {
 		// Normal protocol: execute / preempt / restart / idle / no change,
 		// progress updates, OK and non-OK completions, shutdown at every point.
 		scenario("lifecycle",
-			config{budget: 5, maxProgress: 2, execSame: true},
-			config{budget: 8, maxProgress: 2, execSame: true}, 2, -1),
+			config{budget: 5, maxProgress: 2, execSame: true, late: true},
+			config{budget: 8, maxProgress: 2, execSame: true, late: true}, 2, -1),
 		// RPC errors and the error back-off, with clock jumps.
 		scenario("fault-rpc",
 			config{budget: 4, maxProgress: 1, maxJumps: 1, faults: []reply{rErr}},
@@ -47,15 +47,15 @@ func TestMC(t *testing.T) {
 			config{budget: 6, maxProgress: 1, maxJumps: 2, faults: []reply{rBadTS}}, 2, 3),
 		// Execute orders that cannot be started, unknown desired states.
 		scenario("fault-order",
-			config{budget: 4, maxProgress: 1, faults: []reply{rBadExec, rUnknown}},
-			config{budget: 6, maxProgress: 1, maxJumps: 1, faults: []reply{rBadExec, rUnknown}}, 2, 3),
+			config{budget: 4, maxProgress: 1, faults: []reply{rBadExec, rUnknown}, late: true},
+			config{budget: 6, maxProgress: 1, maxJumps: 1, faults: []reply{rBadExec, rUnknown}, late: true}, 2, 3),
 		// Readiness failures (also after non-OK completions), combined with
 		// RPC errors: readiness must only be (re)checked - and its failure may
 		// only permit termination - while the scheduler cannot believe the
 		// worker is executing.
 		scenario("readiness",
-			config{budget: 4, maxProgress: 0, maxReadyFail: 2, noNone: true, faults: []reply{rErr}},
-			config{budget: 6, maxProgress: 2, maxReadyFail: 3, maxJumps: 1, faults: []reply{rErr}}, 2, -1),
+			config{budget: 4, maxProgress: 0, maxReadyFail: 2, noNone: true, faults: []reply{rErr}, late: true},
+			config{budget: 6, maxProgress: 2, maxReadyFail: 3, maxJumps: 1, faults: []reply{rErr}, late: true}, 2, -1),
 		// The one-minute rule: scheduler unreachable during shutdown.
 		scenario("outage",
 			config{budget: 3, maxProgress: 0, maxJumps: 2, faults: []reply{rErr}},
